@@ -233,7 +233,7 @@ STEP_HINT = ("proof { let s0 = self.m@.chars.subrange(self.m@.start as int, self
              "assert forall|e2: int| e <= e2 <= cs.len() implies b_open(#[trigger] cs.subrange(st, e2)) && !is_quoted_string(cs.subrange(st, e2)) by { let u = cs.subrange(st, e2); let v = cs.subrange(st, e); assert(v =~= s0.push(c)); assert(u[0] == v[0] && u[1] == v[1] && u[2] == v[2]); lemma_block_not_quoted(u); } } }")
 
 adv = part("advance")
-adv["clauses"] = LX.ADV_REQ + [LN.STALE_REQ, LN.IDLE_POST, LN.TEXT_POST, LN.STALE_POST, STRERR_POST]
+adv["clauses"] = LX.ADV_REQ + [LN.STALE_REQ, LN.IDLE_POST, LN.TEXT_POST, LN.STALE_POST, STRERR_POST, LX.NO_LIMIT_POST]
 adv["loops"] = [dict(invariant=[
     ("wf", "self.m@.wf(), self.m@.chars == old(self).m@.chars, self.source == old(self).source, self.m@.start == old(self).m@.start"),
     ("start_state", "state is Start ==> self.m@.eff() == self.m@.start && token.data@ =~= Seq::<char>::empty()"),
@@ -254,15 +254,15 @@ eof["clauses"] = [("requires", "wf", "old(self).m@.wf() && !old(self).m@.pending
                   ("requires", "other_states_have_consumed_something", "!(state is Start) ==> old(self).m@.start < old(self).m@.read && old(self).m@.index_ok"),
                   ("requires", "string_prefix_grammar", "state_strings(state, consumed(&*old(self)), old(self).err is None)", ["C03"]),
                   ("requires", "no_stale_error", "(!string_state(state) && !(state is Start)) ==> old(self).err is None"),
-                  LN.IDLE_POST, LN.TEXT_POST, LN.STALE_POST, STRERR_POST]
+                  LN.IDLE_POST, LN.TEXT_POST, LN.STALE_POST, STRERR_POST, LX.NO_LIMIT_POST]
 eof["hints"] = [("body_start", None, "proof { let s = consumed(&*self); lemma_string_error_step(s, 'x'); if dead(s) { lemma_dead_not_viable(s); } if q_open(s) { lemma_ncp_open(s); } if b_open(s) { lemma_block_not_quoted(s); } if s.len() >= 1 && no_complete_prefix(s) { lemma_ncp_whole(s); } }")]
 eof["props"] = ["C03"]
 done = part("done")
 done["props"] = ["C03"]
-done["clauses"] = done["clauses"] + [("ensures", "recorded_error_is_cleared", "final(self).err is None", ["C03"])]
+done["clauses"] = done["clauses"] + [("ensures", "recorded_error_is_cleared", "final(self).err is None", ["C03"]), LX.NO_LIMIT_POST]
 usp = part("unterminated_spread_operator")
 usp["props"] = ["C03"]
-usp["clauses"] = usp["clauses"] + [("ensures", "recorded_error_untouched", "final(self).err == old(self).err")]
+usp["clauses"] = usp["clauses"] + [("ensures", "recorded_error_untouched", "final(self).err == old(self).err"), LX.NO_LIMIT_POST]
 
 _i = LN.NUMBERS_PRELUDE.index("/// the states in which an error may be recorded on the cursor while lexing goes on")
 _j = LN.NUMBERS_PRELUDE.index("/// what this second, lighter pass over the state machine tracks")
@@ -270,7 +270,7 @@ STRING_STATE = LN.NUMBERS_PRELUDE[_i:_j]      # spec fn string_state (text of un
 
 UNIT = {
     "name": "lexer_strings",
-    "properties": ["C03"],
+    "properties": ["C03", "C04", "C01"],
     "rlimit": 600,
     "rlimit_retry": [],
     "parts": [
